@@ -13,9 +13,13 @@ RULE = ("K: (a) SimulationObject.check_overlap (private anchor, used directly) f
         "(volume 8^3 (7-10 thorough), ALWAYS 2-3 continuous devices in varying list order incl. fixed scenes whose sources "
         "overlap only the first / middle / last / two / all / none of three disjoint devices, optional static box, 2-4 PointDipoleSource / "
         "UniformPlaneSource / EnergyDetector boxes whose per-axis relation to a device is drawn from the 13 interval "
-        "relations, weighted towards strictly-inside, touching, one-axis-apart): which loop applied each source "
-        "(state present after place_objects / object replaced by apply_params) compared exactly with the model's two "
-        "loops; property oracle: the state of every source after apply_params equals the state obtained by applying the "
+        "relations, weighted towards strictly-inside, touching, one-axis-apart; object kinds: PointDipoleSource, "
+        "UniformPlaneSource, GaussianPlaneSource, GaussianModeOverlapDetector (material-dependent reference mode / n_eff), "
+        "EnergyDetector): DECISION LEVEL - the `apply` attribute of every SimulationObject class is wrapped in the "
+        "harness and the calls made by place_objects resp. apply_params are recorded for every object of the list "
+        "and, for every object whose apply is not the inherited no-op (all source kinds and the mode-overlap detectors), "
+        "compared exactly with the model's two loops (`decide`) and "
+        "with the plain rule 'deferred and re-applied <=> overlaps some device'; property oracle: the state of every source after apply_params equals the state obtained by applying the "
         "object directly against ALL post-device arrays (inverse permittivity, pole coefficients c1..c4, conductivity; "
         "1e-12); half of the scenes give the device a Lorentz/Drude material so that the parameters also rewrite the "
         "coefficient arrays (state incl. the plane sources' _temporal_H_filter). non-trivial = distinct per-axis relation triple x kind.")
@@ -38,7 +42,37 @@ def J():
         except Exception:
             pass
         _jax = dict(jax=jax, jnp=jnp, fdtdx=fdtdx)
+        _install_apply_recorder()
     return _jax
+
+
+# which objects have their `apply` called, per phase — observed by replacing the `apply` attribute of every class of the
+# SimulationObject hierarchy that defines one (harness-side only, no source hooks)
+REC = {"phase": None, "calls": []}
+
+
+def _install_apply_recorder():
+    from fdtdx.objects.object import SimulationObject
+
+    def subclasses(c):
+        for sub in c.__subclasses__():
+            yield sub
+            yield from subclasses(sub)
+
+    done = []
+    for cls in [SimulationObject] + list(subclasses(SimulationObject)):
+        if "apply" in cls.__dict__ and cls not in done:
+            done.append(cls)
+
+            def make(orig):
+                def apply(self, *a, **k):
+                    if REC["phase"] is not None:
+                        REC["calls"].append((REC["phase"], self.name))
+                    return orig(self, *a, **k)
+                apply.__wrapped__ = orig
+                return apply
+            setattr(cls, "apply", make(cls.__dict__["apply"]))
+    _jax["recorded_classes"] = [c.__name__ for c in done]
 
 
 # ----------------------------------------------------------------------------- part (a): the predicate
@@ -153,13 +187,16 @@ def run_predicate(ctx):
 DIPOLE_FIELDS = ["_inv_eps_local", "_inv_mu_local", "_inv_eps_oriented", "_inv_mu_oriented"]
 PLANE_FIELDS = ["_E", "_H", "_time_offset_E", "_time_offset_H"]
 PLANE_OPTIONAL = ["_temporal_H_filter"]          # set only in dispersive scenes (None otherwise)
+MODE_DET_FIELDS = ["_mode_E", "_mode_H", "_mode_neff"]
+FIELDS = {"dipole": DIPOLE_FIELDS, "plane": PLANE_FIELDS, "gplane": PLANE_FIELDS, "gdet": MODE_DET_FIELDS, "detector": []}
+SOURCE_KINDS = ("dipole", "plane", "gplane")
 
 
 def build_scene(inp):
     j = J()
     fdtdx, jnp = j["fdtdx"], j["jnp"]
     cfg = fdtdx.SimulationConfig(time=20e-15, grid=fdtdx.UniformGrid(spacing=50e-9), dtype=jnp.float64, backend="cpu")
-    objs = [fdtdx.SimulationVolume(partial_grid_shape=tuple(inp["volume"]))]
+    objs = [fdtdx.SimulationVolume(name="vol", partial_grid_shape=tuple(inp["volume"]))]
     cons = []
 
     def add(o, box):
@@ -195,6 +232,18 @@ def build_scene(inp):
             vec[int(o["pol"])] = 1
             ob = fdtdx.UniformPlaneSource(name=name, partial_grid_shape=shp(box), wave_character=wc,
                                           direction=o["dir"], fixed_E_polarization_vector=tuple(vec))
+        elif o["kind"] == "gplane":
+            vec = [0, 0, 0]
+            vec[int(o["pol"])] = 1
+            ob = fdtdx.GaussianPlaneSource(name=name, partial_grid_shape=shp(box), wave_character=wc, radius=100e-9,
+                                           direction=o["dir"], fixed_E_polarization_vector=tuple(vec))
+        elif o["kind"] == "gdet":
+            # analytic mode-overlap detector (no mode solver): reference mode and n_eff come from the materials
+            vec = [0.0, 0.0, 0.0]
+            vec[int(o["pol"])] = 1.0
+            ob = fdtdx.GaussianModeOverlapDetector(name=name, partial_grid_shape=shp(box), wave_characters=(wc,),
+                                                   mode_radius=100e-9, direction=o["dir"],
+                                                   fixed_E_polarization_vector=tuple(vec))
         elif o["kind"] == "detector":
             ob = fdtdx.EnergyDetector(name=name, partial_grid_shape=shp(box))
         else:
@@ -203,11 +252,14 @@ def build_scene(inp):
     order = inp.get("order") or list(range(len(entries)))
     for k in order:
         add(entries[k][1], entries[k][2])
-    return objs, cfg, cons
+    V = inp["volume"]
+    listing = [("vol", [(0, V[0]), (0, V[1]), (0, V[2])], False)]
+    listing += [(entries[k][0], entries[k][2], entries[k][0].startswith("dev")) for k in order]
+    return objs, cfg, cons, listing
 
 
 def state_of(obj, kind, optional=False):
-    fields = DIPOLE_FIELDS if kind == "dipole" else PLANE_FIELDS + (PLANE_OPTIONAL if optional else []) if kind == "plane" else []
+    fields = FIELDS[kind] + (PLANE_OPTIONAL if optional and kind in ("plane", "gplane") else [])
     out = {}
     for f in fields:
         try:
@@ -221,40 +273,48 @@ def state_of(obj, kind, optional=False):
 
 
 def run_scene(inp):
-    """returns (tags per object, property detail or None); tag = loops that applied the object.  A valid scene on
-    which the real code raises (or loses an object) counts as a failure of the property on that input."""
+    """returns (listing, tags, property detail or None).  listing = every object of the list handed to place_objects
+    (name, box, isDevice) in list order; tags[name] = which loop(s) called the object's `apply` ('P' place_objects,
+    'A' apply_params).  A valid scene on which the real code raises counts as a failure of the property on it."""
     try:
         return _run_scene(inp)
     except Exception as e:                                   # noqa: BLE001
         import traceback
+        REC["phase"] = None
         tb = traceback.extract_tb(e.__traceback__)
         where = next((f"{fr.filename.split('/src/')[-1]}:{fr.lineno}" for fr in reversed(tb) if "/fdtdx/" in fr.filename), "harness")
-        return ["!"] * len(inp["objects"]), f"place_objects/apply_params/apply raised {type(e).__name__}: {str(e)[:200]} (at {where})"
+        return None, {}, f"place_objects/apply_params/apply raised {type(e).__name__}: {str(e)[:200]} (at {where})"
 
 
 def _run_scene(inp):
     j = J()
     fdtdx, jnp, jax = j["fdtdx"], j["jnp"], j["jax"]
-    objs, cfg, cons = build_scene(inp)
+    objs, cfg, cons, listing = build_scene(inp)
+    REC["calls"] = []
+    REC["phase"] = "P"
     oc, arrays, params, cfg2, _ = fdtdx.place_objects(objs, cfg, cons, jax.random.PRNGKey(int(inp.get("pseed", 0))))
+    REC["phase"] = None
     key = jax.random.PRNGKey(int(inp.get("pseed", 0)) + 17)
     newp = {}
     for name, p in params.items():
         key, sub = jax.random.split(key)
         newp[name] = jax.random.uniform(sub, p.shape, dtype=jnp.float64)
+    REC["phase"] = "A"
     arr2, oc2, _ = fdtdx.apply_params(arrays, oc, newp, jax.random.PRNGKey(5))
-    tags, detail = [], None
+    REC["phase"] = None
+    calls = set(REC["calls"])
+    tags = {name: ("P" if ("P", name) in calls else "") + ("A" if ("A", name) in calls else "") for name, _, _ in listing}
+    detail = None
+    if [o.name for o in oc2.object_list] != [n for n, _, _ in listing]:
+        detail = f"object list after apply_params is {[o.name for o in oc2.object_list]}, handed in {[n for n, _, _ in listing]}"
+        return listing, tags, detail
     for i, o in enumerate(inp["objects"]):
         name = f"o{i}"
         before, after = oc[name], oc2[name]
         if tuple(map(tuple, after.grid_slice_tuple)) != tuple(tuple(int(v) for v in b) for b in o["box"]):
             detail = detail or f"object {name} moved: {after.grid_slice_tuple} instead of {o['box']}"
-        if o["kind"] == "detector":
-            tags.append("?")
+        if not FIELDS[o["kind"]]:
             continue
-        st0 = state_of(before, o["kind"])
-        placed = all(v is not None for v in st0.values())
-        tags.append(("P" if placed else "") + ("A" if after is not before else ""))
         # property: the state after apply_params is the state of a set-up against the post-device arrays
         # (ALL post-device arrays: inverse permittivity/permeability, pole coefficients, conductivity)
         sg = jax.lax.stop_gradient
@@ -264,21 +324,22 @@ def _run_scene(inp):
                               dispersive_c3=arr2.dispersive_c3, dispersive_c4=arr2.dispersive_c4,
                               electric_conductivity=arr2.electric_conductivity)
         want, got = state_of(direct, o["kind"], True), state_of(after, o["kind"], True)
+        what = f"{o['kind']} {'source' if o['kind'] in SOURCE_KINDS else 'detector'} {name} box {o['box']}"
         for f in want:
             if want[f] is None and got[f] is None:
                 continue
             if want[f] is None:
-                detail = detail or f"{o['kind']} source {name} box {o['box']}: state {f} set after apply_params but a direct set-up leaves it unset"
+                detail = detail or f"{what}: state {f} set after apply_params but a direct set-up leaves it unset"
                 continue
             if got[f] is None:
-                detail = detail or f"{o['kind']} source {name} box {o['box']} has no state {f} after apply_params"
+                detail = detail or f"{what} has no state {f} after apply_params"
                 continue
-            w, g = np.asarray(want[f], dtype=float), np.asarray(got[f], dtype=float)
+            w, g = np.asarray(want[f]), np.asarray(got[f])
             err = relerr(g, w)
             if not err <= 1e-12:
-                detail = detail or (f"{o['kind']} source {name} box {o['box']} (devices {inp['devices']}): state {f} after "
-                                    f"apply_params differs from a set-up against the post-device materials by {err:.3g} (relative)")
-    return tags, detail
+                detail = detail or (f"{what} (devices {inp['devices']}): state {f} after apply_params differs from a "
+                                    f"set-up against the post-device materials by {err:.3g} (relative)")
+    return listing, tags, detail
 
 
 def rel_intervals(V, dev, size):
@@ -316,10 +377,11 @@ def gen_scene(rng, idx, thorough=False):
     scen_cycle = ["inside", "inside", "random", "apart1", "touch", "random", "far", "cover"]
     for k in range(rng.randint(2, 4)):
         scen = scen_cycle[(idx + k) % len(scen_cycle)] if k < 2 else rng.choice(scen_cycle)
-        kind = rng.choice(["dipole", "plane", "plane", "dipole", "detector"]) if k else ["dipole", "plane"][idx % 2]
+        kind = (rng.choice(["dipole", "plane", "gdet", "gdet", "gplane", "dipole", "detector"]) if k
+                else ["dipole", "plane", "gdet"][idx % 3])
         dev = rng.choice(devs)
         axis = rng.choice([0, 2]) if not thorough else rng.randint(0, 2)
-        if kind == "plane":
+        if kind in ("plane", "gplane", "gdet"):
             t = rng.choice([2, 2, "full"] + ([3] if thorough else [])) if scen != "cover" else "full"
             shape = [V[a] if t == "full" else t for a in range(3)]
             shape[axis] = 1
@@ -347,7 +409,7 @@ def gen_scene(rng, idx, thorough=False):
             cands = [r for r in (want or list(g)) if r in g] or list(g)
             box.append(rng.choice(g[rng.choice(sorted(cands))]))
         o = {"kind": kind, "box": box}
-        if kind == "plane":
+        if kind in ("plane", "gplane", "gdet"):
             o["dir"] = rng.choice(["+", "-"])
             o["pol"] = rng.choice([a for a in range(3) if a != axis])
         elif kind == "dipole":
@@ -364,32 +426,56 @@ def flat(box):
     return " ".join(f"{int(iv[0])} {int(iv[1])}" for iv in box)
 
 
-def model_tags(ctx, inp):
-    line = f"loops {len(inp['devices'])} " + " ".join(flat(b) for b in inp["devices"]) + f" {len(inp['objects'])}"
-    if inp["objects"]:
-        line += " " + " ".join(flat(o["box"]) for o in inp["objects"])
+def model_decisions(ctx, listing):
+    """the model's decision for EVERY object of the list (volume, devices, slab, sources, detectors)"""
+    line = "decide " + " ".join(("d " if dev else "o ") + flat(box) for _, box, dev in listing)
     return ctx.driver.ask_many([line])[0]      # (the persistent Driver.ask blocks: the native driver does not flush)
 
 
+def decision_detail(listing, tags, kinds):
+    """plain oracle at the decision level, for every object of the list whatever its kind:
+    apply deferred at placement and called by apply_params  <=>  the object overlaps some device"""
+    dev_boxes = [box for _, box, dev in listing if dev]
+    for name, box, dev in listing:
+        if dev or not FIELDS.get(kinds.get(name)):
+            continue                      # inherited no-op apply: calling it or not changes nothing
+        hit = any(oracle_overlap(tuple(map(tuple, d)), tuple(map(tuple, box))) for d in dev_boxes)
+        want = "A" if hit else "P"
+        if tags.get(name) != want:
+            kind = "device" if dev else kinds.get(name, name)
+            return (f"{kind} {name} box {box}: apply called by {tags.get(name) or 'no loop'} (P = place_objects, "
+                    f"A = apply_params), but it {'overlaps a' if hit else 'overlaps no'} device {dev_boxes}, so it must be "
+                    f"applied by {want} only")
+    return None
+
+
 def check_scene(ctx, inp, sample=False):
-    tags, detail = run_scene(inp)
-    model = model_tags(ctx, inp)
-    rels = []
-    for o, t in zip(inp["objects"], tags):
-        r = tuple(allen(tuple(o["box"][a]), tuple(inp["devices"][0][a])) for a in range(3))
-        listed = inp.get("order") or list(range(len(inp["devices"])))
-        dev_pos = [k for k in listed if k < len(inp["devices"])]          # devices in list order
-        hit = tuple(oracle_overlap(tuple(map(tuple, inp["devices"][k])), tuple(map(tuple, o["box"]))) for k in dev_pos)
-        rels.append((o["kind"], (r, hit)))
-    for (kind, r), t, m in zip(rels, tags, model):
-        ctx.case(sample=None, nontrivial=("scene", kind, r, inp.get("dispersive")), op="scene-object", kind=kind,
-                 dispersive_device=str(inp.get("dispersive")), devices=len(inp["devices"]),
-                 overlapped_devices_in_list_order="".join("x" if h else "." for h in r[1]), applied_by={"P": "place_objects", "A": "apply_params"}.get(m, m))
-        if kind != "detector":
-            ctx.expect_equal("loops", inp, t, m)
+    listing, tags, detail = run_scene(inp)
+    if listing is None:
+        ctx.case(nontrivial=None, op="scene-raised")
+        ctx.mismatch("decide", inp, {"impl": "raised", "model": "-"})
+        ctx.violation(inp, detail)
+        return detail
+    model = model_decisions(ctx, listing)
+    kinds = {f"o{i}": o["kind"] for i, o in enumerate(inp["objects"])}
+    dev_boxes = [box for _, box, dev in listing if dev]                    # devices in list order
+    for (name, box, dev), m in zip(listing, model):
+        kind = "device" if dev else kinds.get(name, name)                  # vol / slab keep their name as kind
+        hit = tuple(oracle_overlap(tuple(map(tuple, d)), tuple(map(tuple, box))) for d in dev_boxes)
+        r = tuple(allen(tuple(box[a]), tuple(dev_boxes[0][a])) for a in range(3))
+        ctx.case(sample=None, nontrivial=("scene", kind, r, hit, inp.get("dispersive")), op="scene-object", kind=kind,
+                 dispersive_device=str(inp.get("dispersive")), devices=len(dev_boxes),
+                 overlapped_devices_in_list_order="".join("x" if h else "." for h in hit),
+                 applied_by={"P": "place_objects", "A": "apply_params"}.get(m, m))
+        # decision level, every object whose `apply` does something (all source kinds, mode-overlap detectors): which
+        # loop called it.  For the volume, static objects, devices and plain detectors `apply` is the inherited no-op,
+        # so whether it is called is not observable behaviour; their decisions are only counted.
+        if FIELDS.get(kind):
+            ctx.expect_equal("decide", inp, f"{name}:{tags.get(name)}", f"{name}:{m}")
+    detail = detail or decision_detail(listing, tags, kinds)
     if sample:
-        ctx.samples.append({"input": inp, "impl_tags": tags, "model_tags": model})
-    ctx.impl_property_evals += len(tags)
+        ctx.samples.append({"input": inp, "impl_apply_calls": tags, "model": model})
+    ctx.impl_property_evals += len(listing)
     if detail:
         ctx.violation(inp, detail)
     return detail
@@ -398,7 +484,7 @@ def check_scene(ctx, inp, sample=False):
 def witness_scene(kind="dipole", dispersive=None):
     """the Lean refutation witness: a source strictly inside the device on all three axes"""
     o = {"kind": kind, "box": [(3, 4), (3, 4), (3, 4)], "pol": 0}
-    if kind == "plane":
+    if kind in ("plane", "gplane", "gdet"):
         o.update(dir="+", pol=0, box=[(3, 5), (3, 5), (3, 4)])
     else:
         o["stype"] = "electric"
@@ -418,6 +504,9 @@ def multi_device_scene(perm, dispersive=None):
                dip([(3, 4), (3, 4), (0, 1)]),                       # none (one cell below every device)
                {"kind": "plane", "box": [(3, 5), (3, 5), (4, 5)], "dir": "+", "pol": 0},    # only dev1
                {"kind": "plane", "box": [(0, 8), (0, 8), (5, 6)], "dir": "-", "pol": 1},    # all three
+               {"kind": "gdet", "box": [(3, 5), (3, 5), (5, 6)], "dir": "+", "pol": 0},     # mode-overlap detector, only dev1
+               {"kind": "gdet", "box": [(0, 8), (0, 8), (0, 1)], "dir": "-", "pol": 1},     # … clear of every device
+               {"kind": "gplane", "box": [(6, 8), (3, 5), (6, 7)], "dir": "+", "pol": 1},   # only dev2
                {"kind": "detector", "box": [(0, 2), (2, 3), (3, 4)]}]
     order = list(perm) + list(range(3, 3 + len(objects)))
     return {"op": "scene", "volume": [8, 8, 8], "devices": devs, "static": None, "objects": objects, "order": order,
@@ -432,6 +521,8 @@ def run(ctx):
     # the Lean refutation witness of the as-found tree first: a source strictly inside a device
     check_scene(ctx, witness_scene("dipole"), sample=True)
     check_scene(ctx, witness_scene("plane"))
+    # a material-dependent DETECTOR crossing the device must see the device materials as well
+    check_scene(ctx, witness_scene("gdet"))
     # dispersive device material: re-applied sources must see the post-device pole coefficients as well
     check_scene(ctx, witness_scene("dipole", "lorentz"))
     check_scene(ctx, witness_scene("plane", "drude"))
@@ -451,7 +542,10 @@ def run(ctx):
 def property_fails(inp):
     if inp.get("op") == "ov":
         return overlap_fails(tuple(map(tuple, inp["s"])), tuple(map(tuple, inp["o"])))
-    return run_scene(inp)[1]
+    listing, tags, detail = run_scene(inp)
+    if detail or listing is None:
+        return detail
+    return decision_detail(listing, tags, {f"o{i}": o["kind"] for i, o in enumerate(inp["objects"])})
 
 
 def search(ctx, hints):
@@ -480,7 +574,7 @@ def search(ctx, hints):
                     ctx.violation({"op": "ov", "s": s, "o": o}, d)
                     return
     # scenes: one device, one single-cell dipole at every per-axis position class, inside first
-    for kind in ("dipole", "plane"):
+    for kind in ("dipole", "plane", "gdet", "gplane"):
         for disp in (None, "lorentz", "drude"):
             ctx.impl_property_evals += 1
             d = property_fails(witness_scene(kind, disp))
